@@ -371,6 +371,7 @@ func (p Parameters) Equal(other *Parameters) (res bool) {
 	res = res && cmp.Equal(p.Mod1ParametersLiteral, other.Mod1ParametersLiteral)
 	res = res && cmp.Equal(p.CoeffsToSlotsParameters, other.CoeffsToSlotsParameters)
 	res = res && cmp.Equal(p.IterationsParameters, other.IterationsParameters)
+	res = res && p.CircuitOrder == other.CircuitOrder
 	return
 }
 
